@@ -5,7 +5,6 @@ package main
 
 import (
 	"go/token"
-	"go/types"
 	"sort"
 
 	"golang.org/x/tools/go/ssa"
@@ -39,15 +38,14 @@ func iterationIndex(cond ssa.Value, h *ssa.BasicBlock) ssa.Value {
 }
 
 // tagReaders: the consumers that read (or hand on) a tag octet, recognised by
-// their result (byte, error).
+// their results (a byte …, an error).
 func (w *World) tagReaders(consumers map[*ssa.Function]bool) map[*ssa.Function]bool {
 	out := map[*ssa.Function]bool{}
 	for fn := range consumers {
-		res := fn.Signature.Results()
-		if res.Len() == 2 && isErrorType(res.At(1).Type()) {
-			if b, ok := res.At(0).Type().Underlying().(*types.Basic); ok && b.Kind() == types.Uint8 {
-				out[fn] = true
-			}
+		// (also a prelude helper that hands the octet back with what it already
+		// decided about it: `tag, settled, err := d.leadTag(who)`, dispatch_lead.go)
+		if handsBackOctet(fn) {
+			out[fn] = true
 		}
 	}
 	return out
@@ -73,12 +71,97 @@ func (w *World) newValueCounter(consumers map[*ssa.Function]bool) *valueCounter 
 }
 
 func (vc *valueCounter) isValueReader(fn *ssa.Function) bool {
+	return vc.opensValue(fn, 0)
+}
+
+// opensValue: fn obtains a tag itself — directly, or in code extracted from it:
+// an unexported function all of whose uses are static calls from fn and whose
+// call precedes every other read of fn (the head of the production split off,
+// `readMapHead` of `readMap`) is part of fn.
+func (vc *valueCounter) opensValue(fn *ssa.Function, depth int) bool {
 	for _, cs := range vc.w.callSitesIn(fn) {
-		if sc := cs.call.Call.StaticCallee(); sc != nil && vc.tagRd[sc] {
+		sc := cs.call.Call.StaticCallee()
+		if sc == nil {
+			continue
+		}
+		if vc.tagRd[sc] {
+			return true
+		}
+		if depth < 3 && sc != fn && vc.consumers[sc] && vc.w.extractedFrom(sc, fn) && vc.readsFirst(cs.call, fn) && vc.opensValue(sc, depth+1) {
 			return true
 		}
 	}
 	return false
+}
+
+// readsFirst: call c precedes every other consuming call of fn (the head of the
+// production comes first; a value reader with a single caller that sits in one
+// branch next to another reader — `readField` / `ReadData` in the bind / skip
+// arms of an extracted field reader — is an alternative, not the head).
+func (vc *valueCounter) readsFirst(c *ssa.Call, fn *ssa.Function) bool {
+	for _, cs := range vc.w.callSitesIn(fn) {
+		if cs.call == c {
+			continue
+		}
+		consumes := false
+		for _, g := range vc.w.calleesOf(cs.call) {
+			if vc.consumers[g] && vc.w.inPkg(g) {
+				consumes = true
+			}
+		}
+		if !consumes {
+			continue
+		}
+		if cs.call.Block() == c.Block() {
+			for _, in := range c.Block().Instrs {
+				if in == ssa.Instruction(cs.call) {
+					return false // the other call comes first
+				}
+				if in == ssa.Instruction(c) {
+					break
+				}
+			}
+			continue
+		}
+		if !c.Block().Dominates(cs.call.Block()) {
+			return false
+		}
+	}
+	return true
+}
+
+// extractedFrom: h is an unexported package function with a body whose only
+// uses in the package are static calls made by fn.
+func (w *World) extractedFrom(h, fn *ssa.Function) bool {
+	if h == nil || h.Blocks == nil || !w.inPkg(h) || h.Parent() != nil || token.IsExported(h.Name()) {
+		return false
+	}
+	refs := h.Referrers()
+	n := 0
+	if refs != nil {
+		for _, ref := range *refs {
+			c, ok := ref.(*ssa.Call)
+			if !ok || c.Call.Value != ssa.Value(h) || c.Parent() != fn {
+				return false
+			}
+			n++
+		}
+	}
+	if n > 0 {
+		return true
+	}
+	// (methods are not referred to as values by their static calls: use the call graph)
+	node := w.CG.Nodes[h]
+	if node == nil || len(node.In) == 0 {
+		return false
+	}
+	for _, e := range node.In {
+		c, ok := e.Site.(*ssa.Call)
+		if !ok || c.Call.StaticCallee() != h || c.Parent() != fn {
+			return false
+		}
+	}
+	return true
 }
 
 // ofCall: the possible numbers of values call c consumes (nil: unknown).
